@@ -2,7 +2,7 @@
    Proofs/LogicProofs.v (helpers, half/full adder, ripple-carry adder), Proofs/LogicMux.v, Proofs/LogicLint.v,
    Proofs/LogicPop.v, Proofs/LogicPopAll.v.  Every width statement is unbounded (induction), none is a sample. *)
 From stdpp Require Import strings gmap sets numbers.
-From CG Require Import Model.Logic Model.Lint Proofs.LogicOracle Proofs.LogicProofs Proofs.LogicLint Proofs.LogicMux Proofs.LogicPop Proofs.LogicPopAll.
+From CG Require Import Model.Logic Model.Lint Proofs.LogicOracle Proofs.LogicProofs Proofs.LogicLint Proofs.LogicMux Proofs.LogicPop Proofs.LogicPopAll Proofs.LogicIO.
 Open Scope string_scope.
 
 (* ---------------------------------------------------------------- helpers of utils.py *)
@@ -54,6 +54,13 @@ Proof.
   split; [exact H1|]. split; [exact H2|apply adder_lint_clean].
 Qed.
 Print Assumptions C13_adder.
+
+(* exactly the named inputs and outputs (cin / cout present iff requested) *)
+Theorem C13_adder_interface : ∀ w ci co,
+  inputs (c_g (adder w ci co)) = list_to_set (names "a_" w ++ names "b_" w ++ (if ci then ["cin"] else []))%list ∧
+  outputs (c_g (adder w ci co)) = list_to_set (names "out_" w ++ (if co then ["cout"] else []))%list.
+Proof. intros w ci co. split; [apply adder_inputs|apply adder_outputs]. Qed.
+Print Assumptions C13_adder_interface.
 
 (* ---------------------------------------------------------------- mux, every width *)
 Theorem C13_mux : ∀ w C v, 1 ≤ w → mux w = Ok C → consistent (c_g C) v →
